@@ -475,6 +475,9 @@ func (t *styT) src() string {
 		if t.auth.kind == "map" || (t.auth.kind == "set" && t.auth.disj && len(t.auth.es) == 1) {
 			return "" // not expressible (a one-element disjunction reads back as a conjunction)
 		}
+		if t.a.kind == "ref" {
+			return "" // `&&T` lexes as the logical-and token
+		}
 		if s := sub(t.a); s != "" {
 			s = strings.TrimPrefix(s, "@")
 			return t.auth.src() + "&" + s
